@@ -3,6 +3,20 @@ TRUST = ("trusted: CPython ast; the checker's own engines; for table rules the i
          "against the real loaders at development time). Known findings are listed in KNOWN_FINDINGS.txt. ")
 
 META = {
+    "C10": {
+        "engine": "sa: E3b string-layout abstract interpretation + sibling cross-check",
+        "technique": "layout abstract interpretation of the CIF record assembler on all paths vs column slices "
+                     "extracted from the PDB record classes; sibling-copy comparison; marker-case enumeration; flag-use "
+                     "classification",
+        "text": "the PDB-format record that cif.atom_site synthesises is analysed as a layout for every copy and every "
+                "path (marker spellings x name lengths): each field must lie inside the slice pdb.ATOM/HETATM read for "
+                "it, all copies must agree, no value may be discarded, every marker spelling must yield a blank column, "
+                "and each column must be fed from the wwPDB-corresponding item; is_cif may only steer header/TER/trailer "
+                "output. Decides that the two readers hand identical records to one pipeline; does not re-decide the "
+                "pipeline.",
+        "note": TRUST + "Item domains: values expressible in both formats. The item correspondence table (14 rows) is "
+                "frozen in the checker.",
+    },
     "C07": {
         "engine": "sa: dataflow, guard sets, guard engine, column extraction",
         "technique": "def-use + path-predicate analysis of the reader and the residue-grouping loop; column table "
